@@ -9,7 +9,9 @@ Oracle: n // 1000 (integer arithmetic).
 """
 LEVEL = "exploration"
 RULE = ("every integer code in 0..65535, the 32-bit boundary values, every DIAMETER_* constant of "
-        "result_codes.py / experimental_result_codes.py (thorough: plus a stride of 4093 over 0..2^32-1) "
+        "result_codes.py / experimental_result_codes.py, every value of every pair of byte positions of the "
+        "32-bit code with the two other bytes at a context value (00, 01; thorough also 7f, 80, ff) "
+        "(thorough: plus a stride of 4093 over 0..2^32-1) "
         "x two predicate families x three answer shapes; a case is one (code, family, shape) triple, all "
         "distinct by construction; non-trivial = codes that are not multiples of 1000 (a definite "
         "family is demanded); multiples of 1000 only get the 'at most one predicate' clause")
@@ -155,6 +157,15 @@ def run(report, tier, seed):
     codes = set(range(0, 65536))
     codes |= {2 ** 31 - 1, 2 ** 31, 2 ** 32 - 1, 2 ** 32 - 1000, 2 ** 24, 2 ** 16, 2 ** 16 + 1}
     codes |= set(consts.values())
+    # byte structure of the 4-byte Result-Code: every value of every pair of byte positions, the two other
+    # bytes held at a context value (a conversion that drops, swaps or sign-extends bytes shows here)
+    contexts = (0x00, 0x01) if tier == "quick" else (0x00, 0x01, 0x7f, 0x80, 0xff)
+    for i in range(4):
+        for j in range(i + 1, 4):
+            for c in contexts:
+                base = sum(c << (8 * (3 - k)) for k in range(4) if k not in (i, j))
+                si, sj = 8 * (3 - i), 8 * (3 - j)
+                codes |= {base | (a << si) | (b << sj) for a in range(256) for b in range(256)}
     if tier == "thorough":
         codes |= set(range(seed % 4093, 2 ** 32, 4093))
     codes = sorted(codes)
